@@ -32,3 +32,60 @@ add(Contract(
                        ("result-fresh", "not result.ok and result.pos == 0 and result.lines == 0")],
                "dec": "maximum - pos"}},
 ))
+
+# ---------------------------------------------------------------------------------------------- parseLinkDestination
+add(Contract("markdown_it.helpers.parse_link_destination._Result.__init__", inline=True, params={"self": "obj:_Result"}))
+QD = "markdown_it.helpers.parse_link_destination.parseLinkDestination"
+ANGLE = "(pos < len(string) and string[pos] == '<')"
+add(Contract(
+    QD, params={"string": "str", "pos": "int", "maximum": "int"}, props=["C01", "C05", "C16", "C03"],
+    requires=[("range", "0 <= pos and maximum <= len(string)")],
+    ensures=[
+        ("fail-shape", "implies(not result.ok, result.pos == 0 and result.lines == 0)", ["C16"]),
+        ("ok-range", "implies(result.ok, pos < result.pos and result.pos <= maximum)", ["C01", "C16"]),
+        # the line accounting of the callers (reference maps, C16/C03) rests on these two: the function reports 0 lines,
+        # so nothing it consumes may be a line ending
+        ("reports-no-lines", "result.lines == 0", ["C03", "C16"]),
+        ("consumes-no-line-ending", "implies(result.ok, forall(k, pos, result.pos, string[k] != '\\n'))", ["C03", "C16"]),
+        ("angle-form", f"implies(result.ok and {ANGLE}, string[result.pos - 1] == '>' and "
+                       "forall(k, pos + 1, result.pos - 1, (string[k] != '<' and string[k] != '>') or string[k - 1] == '\\\\'))", ["C05", "C16"]),
+        ("plain-form-has-no-blank", f"implies(result.ok and not {ANGLE}, forall(k, pos, result.pos, string[k] != ' '))", ["C05", "C16"]),
+        ("plain-form-control-characters-only-escaped", f"implies(result.ok and not {ANGLE}, forall(k, pos, result.pos, (string[k] >= ' ' and string[k] != '\\x7f') or (k > pos and string[k - 1] == '\\\\')))", ["C05"]),
+    ],
+    loops={0: {"types": {"code": "optint"},
+               "inv": [("pos", "start + 1 <= pos and pos <= max(maximum, start + 1) and start == old(pos) and start >= 0 and maximum <= len(string) and start < len(string) and string[start] == '<'"),
+                       ("clean", "forall(k, start + 1, pos, string[k] != '\\n' and ((string[k] != '<' and string[k] != '>') or string[k - 1] == '\\\\'))"),
+                       ("fresh", "not result.ok and result.pos == 0 and result.lines == 0"), ("lines", "lines == 0")],
+               "dec": "maximum - pos"},
+           1: {"types": {"code": "optint"},
+               "inv": [("pos", "start <= pos and pos <= max(maximum, start) and start == old(pos) and start >= 0 and maximum <= len(string) and not (start < len(string) and string[start] == '<')"),
+                       ("level", "0 <= level and level <= 32"),
+                       ("clean", "forall(k, start, pos, string[k] != ' ' and string[k] != '\\n' and ((string[k] >= ' ' and string[k] != '\\x7f') or (k > start and string[k - 1] == '\\\\')))"),
+                       ("fresh", "not result.ok and result.pos == 0 and result.lines == 0"), ("lines", "lines == 0")],
+               "dec": "maximum - pos"}},
+))
+FUNCS = [Q, QD]
+
+# ---------------------------------------------------------------------------------------------- parseLinkLabel
+from . import inline as IL  # noqa: E402
+
+for _q in ("markdown_it.parser_inline.ParserInline.skipToken",):
+    REGISTRY[_q] = IL.REGISTRY[_q]
+QL = "markdown_it.helpers.parse_link_label.parseLinkLabel"
+CACHE_INV = "forall(p, 0, len(state.src) + 1, implies(p in state.cache, state.cache[p] > p))"
+add(Contract(
+    QL, params={"state": "obj:StateInline", "start": "int", "disableNested": "bool"}, result="int", props=["C01", "C20", "C02"],
+    modifies=["state.pos", "state.cache"],
+    requires=[("start", "0 <= start and start < state.posMax and state.posMax <= len(state.src)"), ("nest", "state.md.options.maxNesting >= 1"), ("cache-inv", CACHE_INV)],
+    ensures=[
+        ("pos-restored", "state.pos == old(state.pos)", ["C01", "C02"]),
+        ("label-end", "result == -1 or (start < result and result < state.posMax and state.src[result] == ']')", ["C01", "C02"]),
+        ("cache-inv", CACHE_INV, ["C20"]),
+        ("level", "state.level == old(state.level) and state.posMax == old(state.posMax)", ["C02"]),
+    ],
+    loops={0: {"types": {"marker": "char", "prevPos": "int"},
+               "inv": [("pos", "start + 1 <= state.pos and state.posMax <= len(state.src) and state.posMax == old(state.posMax)"), ("level", "level >= 1 and state.level == old(state.level)"),
+                       ("not-found", "not found and labelEnd == -1 and oldPos == old(state.pos)"), ("cache-inv", CACHE_INV)],
+               "dec": "state.posMax - state.pos"}},
+))
+FUNCS = [Q, QD, QL]
